@@ -11,6 +11,11 @@ reads   <REPO>/duke/src/class_reader.rs   `read_annotations_attribute` (u16 coun
                                           (body = one u16 index of a Utf8 entry), and the arms of InnerClasses, EnclosingMethod,
                                           NestHost, NestMembers, PermittedSubclasses, ModuleMainClass, ModulePackages, Exceptions,
                                           MethodParameters (the reads of the arm in source order: count, pool accessors, flags)
+                                          `read_type_annotations_attribute(_code)`, every `impl TargetInfoRead for X` and
+                                          `read_type_reference_code` (target_type -> the fields the arm reads), `read_type_path`,
+                                          the ten type annotations arms
+        <REPO>/duke/src/class_constants.rs   `mod type_annotation` (target_type constants)
+        <REPO>/duke/src/visitor/{class,field,method,method/code,record}.rs   the target info type of each TypeAnnotationsVisitor
         <REPO>/duke/src/tree/{class,method}.rs   the bits `impl From<u16> for InnerClassFlags / ParameterFlags` keep
         <REPO>/duke/src/class_reader/pool.rs   the narrowing accessors `get_integer_as_*` (`integer as i8` …, `!= 0`)
 writes  <COQ>/C17/ValuesGen.v             data over the types of C17/Values.v
@@ -105,6 +110,145 @@ def ev_arms(fn_body, named, accessors):
 
 
 NEST_TEST = "if nesting > MAX_ELEMENT_VALUE_NESTING { bail!("
+
+# ------------------------------------------------------------------ type annotations
+TA_GENERIC = ("{ let num_annotations = reader.read_u16()?; for _ in 0..num_annotations { "
+              "let type_reference = TargetInfoRead::read_type_reference(reader)?; "
+              "let type_path = read_type_path(reader)?; "
+              "let annotation_descriptor = FieldDescriptor::try_from(pool.get_utf8(reader.read_u16()?)?)?; "
+              "let (visitor, named_element_values_visitor) = type_annotations_visitor.visit_type_annotation(type_reference, type_path, annotation_descriptor)?; "
+              "let named_element_values_visitor = read_element_values_named(reader, pool, named_element_values_visitor, 0)?; "
+              "type_annotations_visitor = TypeAnnotationsVisitor::finish_type_annotation(visitor, named_element_values_visitor)?; } "
+              "Ok(type_annotations_visitor) }")
+TA_CODE = TA_GENERIC.replace("TargetInfoRead::read_type_reference(reader)?", "read_type_reference_code(reader, labels)?")
+TYPE_PATH = re.compile(
+    r"\{ let mut vec = Vec::new\(\); for _ in 0\.\.reader\.read_u8\(\)\? \{ let type_path_kind = reader\.read_u8\(\)\?; let type_argument_index = reader\.read_u8\(\)\?; "
+    r"let x = match type_path_kind \{ kind @ 0\.\.=(\d+) => \{ let x = match kind \{ ((?:\d+ => TypePathKind::\w+, )+)_ => unreachable!\(\), \}; "
+    r"if type_argument_index != 0 \{ bail!\([^;]*\); \} x \}, (\d+) => TypePathKind::TypeArgument \{ index: type_argument_index \}, "
+    r"kind => bail!\([^;]*\), \}; vec\.push\(x\); \} Ok\(TypePath \{ path: vec \}\) \}")
+TABLE_ARM = (r"\{ let mut table = Vec::new\(\); (?:let length = reader\.read_u16\(\)\?; for _ in 0\.\.length|for _ in 0\.\.reader\.read_u16\(\)\?) \{ "
+             r"let start_pc = reader\.read_u16\(\)\?; let length = reader\.read_u16\(\)\?; let range = labels\.get_or_create_range\(start_pc, length\)\?; "
+             r"let index = reader\.read_u16_as_local_variable\(\)\?; table\.push\(\(range, index\)\); \} %s \{ table \} \}")
+# location -> (file with the visitor trait, trait, what the model calls the location)
+TA_LOCATIONS = [(0, "visitor/class.rs", "ClassVisitor", "class"), (1, "visitor/field.rs", "FieldVisitor", "field"), (2, "visitor/method.rs", "MethodVisitor", "method"),
+                (3, "visitor/method/code.rs", "CodeVisitor", "Code"), (4, "visitor/record.rs", "RecordComponentVisitor", "record component")]
+
+
+def target_arms(match_body, struct, consts, where):
+    """the arms of `match reader.read_u8()? { type_annotation::X => …, tag => bail!(…) }` -> [(target_type, [tfield…], variant text)]"""
+    T = re.escape(struct) + r"::(\w+)"
+    rows = []
+    for pat, body in split_arms(match_body):
+        if pat == "tag":
+            if not re.fullmatch(r"bail!\(\"[^\"]*\"\)", body):
+                raise Fail("%s: the default arm does not bail: %s" % (where, body[:80]))
+            continue
+        m = re.fullmatch(r"type_annotation::([A-Z_]+)", pat)
+        if not m or m.group(1) not in consts:
+            raise Fail("%s: arm pattern the translator does not know: %s" % (where, pat))
+        tag = consts[m.group(1)]
+        b = body
+        inner = b[1:-1].strip() if b.startswith("{") and b.endswith("}") and re.fullmatch(r"\{ %s(?: \{ [^{}]* \})? \}" % T, b) else b
+        v = None
+        for rx, fs in ((r"%s" % T, []),
+                       (r"%s \{ \w+: reader\.read_u8\(\)\? \}" % T, ["TU8"]),
+                       (r"%s \{ \w+: reader\.read_u16\(\)\? \}" % T, ["TU16"]),
+                       (r"%s\(labels\.get_or_create\(reader\.read_u16\(\)\?\)\?\)" % T, ["TOff"])):
+            mm = re.fullmatch(rx, inner)
+            if mm:
+                v, fields = mm.group(1), fs
+                break
+        if v is None:
+            mm = re.fullmatch(r"\{ let (\w+) = reader\.read_u8\(\)\?; let (\w+) = reader\.read_u8\(\)\?; %s \{ \1, \2 \} \}" % T, b)
+            if mm:
+                v, fields = mm.group(3), ["TU8", "TU8"]
+        if v is None:
+            mm = re.fullmatch(r"\{ let label = labels\.get_or_create\(reader\.read_u16\(\)\?\)\?; let index = reader\.read_u8\(\)\?; %s \{ label, index \} \}" % T, b)
+            if mm:
+                v, fields = mm.group(1), ["TOff", "TU8"]
+        if v is None:
+            mm = re.fullmatch(TABLE_ARM % T, b)
+            if mm:
+                v, fields = mm.group(1), ["TTable"]
+        if v is None:
+            # super_class / interface: one u16, 65535 standing for the super class
+            mm = re.fullmatch(r"\{ let index = reader\.read_u16\(\)\?; if index == u16::MAX \{ %s \} else \{ %s \{ index \} \} \}" % (T, T), b)
+            if mm:
+                v, fields = "%s(65535)|%s" % (mm.group(1), mm.group(2)), ["TU16"]
+        if v is None:
+            raise Fail("%s: the arm of %s has a body the translator does not know: %s" % (where, m.group(1), b[:160]))
+        rows.append((tag, fields, v))
+    if len(set(t for t, _, _ in rows)) != len(rows):
+        raise Fail("%s: a target_type occurs in two arms" % where)
+    return rows
+
+
+def type_annotation_tables(cr, fns):
+    cc = strip_comments(open(os.path.join(REPO, "duke/src/class_constants.rs")).read())
+    m = re.search(r"pub\(crate\) mod type_annotation \{", cc)
+    if not m:
+        raise Fail("class_constants.rs: no `mod type_annotation`")
+    b = cc.index("{", m.start())
+    consts = {c.group(1): int(c.group(2), 16) for c in re.finditer(r"pub\(crate\) const ([A-Z_]+): u8 = 0x([0-9a-fA-F]+);", cc[b:match_close(cc, b)])}
+    if not consts:
+        raise Fail("class_constants.rs: no type_annotation constants")
+    if fns.get("read_type_annotations_attribute") != TA_GENERIC:
+        raise Fail("read_type_annotations_attribute has another body than the one the model follows")
+    if fns.get("read_type_annotations_attribute_code") != TA_CODE:
+        raise Fail("read_type_annotations_attribute_code has another body than the one the model follows")
+    # the arms of the attribute loops: 8 through the visitor trait's target info type, 2 inside Code
+    arms = list(re.finditer(r"name if name == attribute::RUNTIME_(?:IN)?VISIBLE_TYPE_ANNOTATIONS => \{", cr))
+    n_gen = n_code = 0
+    for arm in arms:
+        b = cr.index("{", arm.end() - 1)
+        body = norm(cr[b:match_close(cr, b) + 1])
+        mm = re.fullmatch(r"\{ let \(visitor, type_annotations_visitor\) = \w+\.visit_type_annotations\((true|false)\)\?; "
+                          r"let type_annotations_visitor = (read_type_annotations_attribute\(reader, type_annotations_visitor, pool\)|read_type_annotations_attribute_code\(reader, type_annotations_visitor, pool, &mut labels\))\?; "
+                          r"\w+ = \w+::finish_type_annotations\(visitor, type_annotations_visitor\)\?; \}", body)
+        if not mm:
+            raise Fail("a type annotations arm has a body the translator does not know: %s" % body[:200])
+        if mm.group(2).startswith("read_type_annotations_attribute_code"):
+            n_code += 1
+        else:
+            n_gen += 1
+    if (n_gen, n_code) != (8, 2) or len(re.findall(r"read_type_annotations_attribute(?:_code)?\(", cr)) != 10:
+        raise Fail("expected 8 type annotations arms calling read_type_annotations_attribute and 2 (Code) calling read_type_annotations_attribute_code; found %d and %d" % (n_gen, n_code))
+    # the impls of TargetInfoRead and read_type_reference_code
+    impls = {}
+    for im in re.finditer(r"impl TargetInfoRead for (\w+) \{", cr):
+        b = cr.index("{", im.end() - 1)
+        body = norm(cr[b:match_close(cr, b) + 1])
+        mm = re.fullmatch(r"\{ fn read_type_reference\(reader: &mut impl ClassRead\) -> Result<Self> \{ Ok\(match reader\.read_u8\(\)\? \{ (.*) \}\) \} \}", body)
+        if not mm:
+            raise Fail("impl TargetInfoRead for %s has a shape the translator does not know" % im.group(1))
+        impls[im.group(1)] = target_arms(mm.group(1), im.group(1), consts, "impl TargetInfoRead for %s" % im.group(1))
+    code = fns.get("read_type_reference_code", "")
+    mm = re.fullmatch(r"\{ Ok\(match reader\.read_u8\(\)\? \{ (.*) \}\) \}", code)
+    if not mm:
+        raise Fail("read_type_reference_code has a shape the translator does not know")
+    impls["TargetInfoCode"] = target_arms(mm.group(1), "TargetInfoCode", consts, "read_type_reference_code")
+    if sorted(impls) != ["TargetInfoClass", "TargetInfoCode", "TargetInfoField", "TargetInfoMethod"]:
+        raise Fail("expected impls of TargetInfoRead for TargetInfoClass, TargetInfoField, TargetInfoMethod; found %s" % sorted(impls))
+    # which target info type the visitor of each location is handed
+    targets = []
+    for loc, vfile, trait, what in TA_LOCATIONS:
+        vs = strip_comments(open(os.path.join(REPO, "duke/src", vfile)).read())
+        tm = re.findall(r"Self::TypeAnnotationsVisitor: TypeAnnotationsVisitor<(\w+)>", vs)
+        if len(tm) != 1 or tm[0] not in impls:
+            raise Fail("%s: the trait %s does not name one known target info type for its TypeAnnotationsVisitor: %r" % (vfile, trait, tm))
+        if (tm[0] == "TargetInfoCode") != (loc == 3):
+            raise Fail("%s: %s is handed %s (the model reads the Code location through read_type_reference_code and no other)" % (vfile, trait, tm[0]))
+        targets.append((loc, "%s (%s)" % (what, tm[0]), impls[tm[0]]))
+    # read_type_path
+    pm = TYPE_PATH.fullmatch(fns.get("read_type_path", ""))
+    if not pm:
+        raise Fail("read_type_path has another body than the one the model follows")
+    plain = [int(x) for x in re.findall(r"(\d+) => TypePathKind::", pm.group(2))]
+    if plain != list(range(0, int(pm.group(1)) + 1)) or int(pm.group(3)) in plain:
+        raise Fail("read_type_path: the kinds of the inner match are not exactly those of the range pattern, or the indexed kind is one of them")
+    path_kinds = [(k, False) for k in plain] + [(int(pm.group(3)), True)]
+    return targets, path_kinds
+
 
 
 def gstr(s):
@@ -242,6 +386,8 @@ def generate():
             raise Fail("the %s arm reads nothing" % name)
         layouts.append((name, "LRow [%s]" % "; ".join(cols) if wide is None else "LVec %s [%s]" % ("true" if wide else "false", "; ".join(cols))))
 
+    targets, path_kinds = type_annotation_tables(cr, fns)
+
     L = ["(* GENERATED by translate/c17_values.py from duke/src/class_reader.rs and class_reader/pool.rs — do not edit. *)",
          "From FB Require Import C17.Values.", "",
          "(* element_value: tag -> (tag of the pool entry the accessor demands, narrowing: 0 none, 1 low 8 bits, 2 low 16 bits, 3 != 0, 4 Utf8) *)",
@@ -260,7 +406,20 @@ def generate():
          "Definition layouts_gen : list (str * layout) := [",
          ";\n".join("  (%s, %s)  (* %s *)" % (gstr(n), lay, n) for n, lay in layouts).replace("(* %s *);" % "", ""),
          "].",
-         "Definition vnames_gen : vnames := mkVN annotation_attrs_gen element_attr_gen index_attrs_gen layouts_gen.", ""]
+         "(* attributes that are read by read_type_annotations_attribute / read_type_annotations_attribute_code *)",
+         "Definition type_annotation_attrs_gen : list str := [%s; %s]." % (gstr("RuntimeVisibleTypeAnnotations"), gstr("RuntimeInvisibleTypeAnnotations")),
+         "(* target_info per location (0 class: impl TargetInfoRead for TargetInfoClass, 1 field: …Field, 2 method: …Method, 3 Code:",
+         "   read_type_reference_code, 4 record component: …Field — the target info type each visitor trait demands): target_type -> the",
+         "   fields its arm reads, in order *)",
+         "Definition targets_gen : list (N * ttable) := [",
+         ";\n".join("  (%d, [%s])  (* %s *)" % (loc, "; ".join("(%d, [%s])" % (t, "; ".join(fs)) for t, fs, _ in arms),
+                                               what + ": " + ", ".join("0x%02x %s" % (t, v) for t, _, v in arms))
+                    for loc, what, arms in targets).replace(" *);", " *)\n  ;").replace("\n  ;\n", ";\n"),
+         "].",
+         "(* read_type_path: type_path_kind -> does the entry carry an index (otherwise type_argument_index must be 0) *)",
+         "Definition path_kinds_gen : list (N * bool) := [%s]." % "; ".join("(%d, %s)" % (k, "true" if b else "false") for k, b in path_kinds),
+         "Definition vnames_gen : vnames := mkVN annotation_attrs_gen element_attr_gen index_attrs_gen layouts_gen",
+         "  type_annotation_attrs_gen (mkTY targets_gen path_kinds_gen).", ""]
     text = "\n".join(L)
     path = os.path.join(COQ, "C17", "ValuesGen.v")
     old = open(path).read() if os.path.exists(path) else None
